@@ -1,6 +1,7 @@
 package main
 
 import (
+	"bytes"
 	"flag"
 	"fmt"
 	"os"
@@ -66,11 +67,6 @@ func run() error {
 	for _, w := range warnings {
 		fmt.Fprintf(os.Stderr, "warning: %v\n", w)
 	}
-	out, err := os.Create(*outputFile)
-	if err != nil {
-		return fmt.Errorf("failed to open output file: %w", err)
-	}
-	defer out.Close()
 	importMode := bebop.ImportGenerationModeSeparate
 	if *combinedImports {
 		importMode = bebop.ImportGenerationModeCombined
@@ -84,8 +80,43 @@ func run() error {
 		PrivateDefinitions:        *privateDefinitions,
 		AlwaysUsePointerReceivers: *pointerReceivers,
 	}
-	if err := bopf.Generate(out, settings); err != nil {
+	// generate into memory: the output file is only replaced once nothing can fail any more
+	var out bytes.Buffer
+	if err := bopf.Generate(&out, settings); err != nil {
 		return fmt.Errorf("failed to generate file: %w", err)
+	}
+	if err := writeFileAtomic(*outputFile, out.Bytes()); err != nil {
+		return fmt.Errorf("failed to write output file: %w", err)
+	}
+	return nil
+}
+
+// writeFileAtomic replaces path with data without ever leaving it empty or
+// half written: the data goes to a temporary file in the same directory,
+// which is renamed over path only after it was written and closed without
+// error.
+func writeFileAtomic(path string, data []byte) error {
+	tmp, err := os.CreateTemp(filepath.Dir(path), filepath.Base(path)+".tmp*")
+	if err != nil {
+		return err
+	}
+	mode := os.FileMode(0o644)
+	if info, statErr := os.Stat(path); statErr == nil {
+		mode = info.Mode().Perm()
+	}
+	_, err = tmp.Write(data)
+	if err == nil {
+		err = tmp.Chmod(mode)
+	}
+	if closeErr := tmp.Close(); err == nil {
+		err = closeErr
+	}
+	if err == nil {
+		err = os.Rename(tmp.Name(), path)
+	}
+	if err != nil {
+		os.Remove(tmp.Name())
+		return err
 	}
 	return nil
 }
